@@ -1,14 +1,21 @@
 CHECK = {
     "level": "exploration",
     "assumptions": [
-        "the reference evaluator in harness/policy/c03_ref_test.go is a faithful reading of website/content/docs/concepts/policies.mdx (plus community/rfcs/acl-paginated-lists.mdx for pagination)",
-        "literal path segments contain neither '+' nor '*' (documented input domain)",
-        "details the documentation does not fix (list/scan fallback consultation order, merging of parameter constraints and pagination limits across stanzas, parameter constraints on delete/list/scan, max_wrapping_ttl without wrapping) are not asserted against the reference, only against order independence / monotonicity",
+        "the reference evaluator in harness/policy/c03_ref_test.go is a faithful reading of website/content/docs/concepts/policies.mdx (plus community/rfcs/acl-paginated-lists.mdx and release notes 2.6.0 for pagination)",
+        "literal path segments contain neither '+' nor '*' (documented input domain); no leading '/', no legacy `policy = \"...\"` form, no control groups / MFA / templating",
+        "details the documentation does not fix (order in which list/scan consult the path and the path without its trailing slash, merging of parameter constraints and pagination limits across stanzas, parameter constraints on delete/list/scan, max_wrapping_ttl without wrapping, non-numeric limit) are not asserted against the reference, only against order independence / monotonicity / isolation",
+        "a policy of namespace ns1/ with path P governs requests to ns1/P; the root policy covers its namespace and the descendants (DESIGN.md; the docs do not spell this out)",
     ],
     "units": [
-        unit("acl", "policy", ["policy/c03_ref_test.go", "policy/c03_prop_test.go", "policy/c03_scratch_test.go"], "^TestVerif_C03_",
+        unit("acl", "policy", ["policy/c03_ref_test.go", "policy/c03_prop_test.go", "policy/c03_small_test.go"],
+             "^TestVerif_C03_(ACL|SmallScope|Root)$",
              quick={"checks": 20000, "shards": 1, "cap": 600},
              thorough={"checks": 200000, "shards": 16, "cap": 2400},
              fuzz=[dict(name="FuzzVerif_C03_ACL", seconds=240)]),
+        # ACLs built from the same cached *Policy objects must not influence each other
+        unit("isolation", "policy", ["policy/c03_ref_test.go", "policy/c03_prop_test.go", "policy/c03_isolation_test.go"],
+             "^TestVerif_C03_Isolation$",
+             quick={"checks": 3000, "shards": 1, "cap": 300},
+             thorough={"checks": 30000, "shards": 2, "cap": 600}),
     ],
 }
